@@ -262,3 +262,22 @@ Fixpoint run_shapes (o:opts) (sg g:graph) (E:env) (shapes:list shape) (explicit:
   end.
 
 Definition validate (o:opts) (sg g:graph) (E:env) : res cres := run_shapes o sg g E E None false [].
+
+(* shape and focus selection of Validator.run (use_shapes / focus_nodes options):
+   use = expanded use_shapes ([] = absent). With both options the focus nodes are
+   handed to the selected shapes directly and the executor's filter is switched off. *)
+Definition lookup_selected (E:env) (use:list term) : res (list shape) :=
+  mapM (fun r => match lookup E r with Some s => Ok s | None => Err ShapeLoad end) use.
+
+Definition validate_sel (o:opts) (sg g:graph) (E:env) (use:list term) : res cres :=
+  match use with
+  | [] => validate o sg g E
+  | _ =>
+    bind (lookup_selected E use) (fun shapes =>
+      match focus_filter o with
+      | [] => run_shapes o sg g E shapes None false []
+      | flt =>
+        run_shapes {| abort := abort o; allow_infos := allow_infos o; allow_warnings := allow_warnings o;
+                      max_depth := max_depth o; focus_filter := [] |} sg g E shapes (Some flt) false []
+      end)
+  end.
